@@ -232,6 +232,34 @@ func OriginsVia(v ssa.Value) ([]Origin, map[string]bool) {
 							walk(st.Val, d+1)
 						}
 					}
+				case *ssa.Slice:
+					// a local buffer filled through a slice of it: binary.BigEndian.PutUint64(buf[:], v), copy(buf[:], src)
+					for _, rr := range *y.Referrers() {
+						call, ok := rr.(*ssa.Call)
+						if !ok || len(call.Common().Args) == 0 {
+							continue
+						}
+						args := callArgs(call)
+						nm := calleeName(call)
+						if call.Common().IsInvoke() {
+							nm = call.Common().Method.Name()
+						}
+						isPut := strings.Contains(nm, "PutUint") || strings.Contains(nm, "AppendUint")
+						if bi, isB := call.Common().Value.(*ssa.Builtin); isB && bi.Name() == "copy" {
+							isPut = true
+						}
+						if !isPut {
+							continue
+						}
+						// the slice must be the destination (first non-receiver argument)
+						dst := args[0]
+						if !isPutDest(args, ssa.Value(y)) {
+							_ = dst
+							continue
+						}
+						n++
+						walk(args[len(args)-1], d+1)
+					}
 				}
 			}
 			if n == 0 {
@@ -386,4 +414,14 @@ func writtenByLiterals(cell *ssa.Alloc) bool {
 		}
 	}
 	return written
+}
+
+// isPutDest: slice is the destination operand of a PutUintNN / copy call (the first argument that is a byte slice).
+func isPutDest(args []ssa.Value, slice ssa.Value) bool {
+	for _, a := range args {
+		if _, isSl := a.Type().Underlying().(*types.Slice); isSl {
+			return a == slice
+		}
+	}
+	return false
 }
